@@ -12,6 +12,13 @@
 //     a leak, unless some committed root's content contains the whole content of that root (content addressing
 //     makes an identical tree or subtree legitimately present). With memTree such roots are not read at all: the
 //     cache legitimately holds nodes of other pending updates, and the property speaks about committed roots only.
+//
+// Aliasing dimension: the store runs in the caller's process and requests carry pointers, so "exactly its content"
+// must hold whatever the caller does with its own memory afterwards. For a drawn share of the updates the harness,
+// once the call has returned, overwrites the key/value bytes it passed in, re-points and truncates the StoreSet
+// structure, or carves keys and values out of one scratch buffer that the next such update overwrites (an encoder
+// with a pooled buffer); for a drawn share of the cases it also overwrites the key buffers of every Get and the
+// value slices Get returned. The model keeps its own copies; the oracle is unchanged.
 package c04
 
 import (
@@ -216,11 +223,69 @@ func apply(parent map[string]string, kv [][2]string) map[string]string {
 }
 
 func storeSet(parent []byte, kv [][2]string, height int64) *types.StoreSet {
-	set := &types.StoreSet{StateHash: parent, Height: height}
+	return buildSet(parent, kv, height, nil)
+}
+
+// what the caller does with the memory of an update after MemSet/Set has returned (bit set, opT.Alias)
+const (
+	aliasValues = 1 << iota // overwrite the value bytes
+	aliasKeys               // overwrite the key bytes
+	aliasStruct             // re-point the KeyValue fields, drop entries, truncate the KV slice, reset the StoreSet fields
+	aliasPool               // keys and values live in one scratch buffer that the next pooled update overwrites
+)
+
+// Not part of the dimension, because the unchanged store keeps these buffers (observations reported to the
+// coordinator, not asserted): the bytes of the StateHash passed to MemSet/Set/Get become the hash field of the
+// loaded root node (nodeDB.GetNode: node.hash = hash) and from there a child reference of the new tree; the root
+// hash MemSet replies is the pending root node's own hash slice.
+
+// buildSet encodes an update into freshly allocated buffers, or, with a pool, into the front of that one buffer.
+func buildSet(parent []byte, kv [][2]string, height int64, pool []byte) *types.StoreSet {
+	set := &types.StoreSet{StateHash: append([]byte{}, parent...), Height: height}
+	off := 0
+	carve := func(s string) []byte {
+		if pool == nil || off+len(s) > len(pool) {
+			return []byte(s)
+		}
+		b := pool[off : off+len(s) : off+len(s)]
+		copy(b, s)
+		off += len(s)
+		return b
+	}
 	for _, p := range kv {
-		set.KV = append(set.KV, &types.KeyValue{Key: []byte(p[0]), Value: []byte(p[1])})
+		set.KV = append(set.KV, &types.KeyValue{Key: carve(p[0]), Value: carve(p[1])})
 	}
 	return set
+}
+
+// scribble is the caller reusing its memory after the call returned.
+func scribble(set *types.StoreSet, alias int) {
+	for _, kv := range set.KV {
+		if alias&aliasValues != 0 {
+			for i := range kv.Value {
+				kv.Value[i] ^= 0x5a
+			}
+		}
+		if alias&aliasKeys != 0 {
+			for i := range kv.Key {
+				kv.Key[i] ^= 0x5a
+			}
+		}
+	}
+	if alias&aliasStruct != 0 {
+		for i, kv := range set.KV {
+			kv.Key, kv.Value = []byte("reused"), nil
+			if i%2 == 0 {
+				set.KV[i] = nil
+			}
+		}
+		set.KV, set.StateHash, set.Height = set.KV[:0], nil, -7
+	}
+}
+
+func genAlias(t *rapid.T) int {
+	return rapid.SampledFrom([]int{0, 0, 0, aliasValues, aliasValues | aliasKeys, aliasPool, aliasPool, aliasStruct,
+		aliasValues | aliasKeys | aliasStruct, aliasPool | aliasStruct}).Draw(t, "alias")
 }
 
 // checkReads compares every committed root with the model through get/iterate (direct calls or queue messages),
@@ -277,6 +342,7 @@ type opT struct {
 	// memset only: instead of KV, write the first Rewrite pairs of the parent's own content again, unchanged
 	// (a block whose writes leave the state as it was: the computed root is the parent's root, one height up)
 	Rewrite int `json:"rewrite,omitempty"`
+	Alias   int `json:"alias,omitempty"` // memset/set: what happens to the request's memory after the call (alias* bits)
 }
 
 var keySpace = []string{"a", "ab", "abc", "b", "ba", "c", "d", "e", "f", "g", "mavl-x", "mavl-y", "z", "\x00", "~"}
@@ -314,14 +380,14 @@ func genOps(t *rapid.T, restart bool) []opT {
 	for len(ops) < n {
 		switch kind := rapid.SampledFrom(kinds).Draw(t, "kind"); kind {
 		case "memset", "set":
-			o := opT{Op: kind, Parent: rapid.IntRange(0, 12).Draw(t, "parent")}
+			o := opT{Op: kind, Parent: rapid.IntRange(0, 12).Draw(t, "parent"), Alias: genAlias(t)}
 			if kind == "set" || rapid.IntRange(0, 9).Draw(t, "emptyBatch") > 0 {
 				o.KV = genKV(t, 1)
 			}
 			ops = append(ops, o)
 			// competing updates on the same parent at the same height are the heart of the property: often follow up
 			for rapid.IntRange(0, 2).Draw(t, "fork") == 0 && len(ops) < n {
-				f := opT{Op: "memset", Parent: o.Parent, KV: genKV(t, 1)}
+				f := opT{Op: "memset", Parent: o.Parent, KV: genKV(t, 1), Alias: genAlias(t)}
 				if rapid.IntRange(0, 5).Draw(t, "identical") == 0 {
 					f.KV = o.KV
 				}
@@ -332,7 +398,7 @@ func genOps(t *rapid.T, restart bool) []opT {
 				}
 			}
 		case "rewrite":
-			ops = append(ops, opT{Op: "memset", Parent: rapid.IntRange(0, 12).Draw(t, "parent"), Rewrite: rapid.IntRange(1, 3).Draw(t, "rewrite")})
+			ops = append(ops, opT{Op: "memset", Parent: rapid.IntRange(0, 12).Draw(t, "parent"), Rewrite: rapid.IntRange(1, 3).Draw(t, "rewrite"), Alias: genAlias(t)})
 		case "repeat": // the same update computed again later (same parent, same batch)
 			var prev []opT
 			for _, o := range ops {
@@ -382,15 +448,27 @@ func poisonSignature(f *fixture, panicMsg string) bool {
 	return false
 }
 
+// aliasReturnedOK: may the harness overwrite the value slices Get returned at this root? Not where the unchanged
+// store itself hands out its own memory (reported to the coordinator as an observation, not asserted): with
+// memTree + memVal a leaf value comes straight out of the process-global node cache, and at a root that is also
+// pending it comes out of the pending in-memory tree.
+func aliasReturnedOK(c cfgT, m *model, root []byte) bool {
+	_, pending := m.pending[string(root)]
+	return !(c.MemTree && c.MemVal) && !pending
+}
+
 type caseT struct {
 	Cfg cfgT  `json:"cfg"`
 	Ops []opT `json:"ops"`
+	// the caller overwrites the key buffers of every Get after it returned, and the value slices Get handed back
+	AliasReads bool `json:"alias_reads,omitempty"`
 }
 
 type outcome struct {
 	nt, cutShort                      bool
 	restarts, forks, identical, empty int
 	rewrites, skipped                 int
+	scribbled, pooled                 int
 }
 
 func runSequential(t lib.TB, test string, cs caseT) (res outcome) {
@@ -400,8 +478,38 @@ func runSequential(t lib.TB, test string, cs caseT) (res outcome) {
 	f := open(cs.Cfg, dir, false)
 	defer func() { f.close() }()
 	m := newModel()
+	pool := make([]byte, 4096)
 	get := func(root []byte, keys [][]byte) [][]byte {
-		return f.st.Get(&types.StoreGet{StateHash: root, Keys: keys})
+		if !cs.AliasReads {
+			return f.st.Get(&types.StoreGet{StateHash: root, Keys: keys})
+		}
+		req := &types.StoreGet{StateHash: append([]byte{}, root...)}
+		for _, k := range keys {
+			req.Keys = append(req.Keys, append([]byte{}, k...))
+		}
+		vals := f.st.Get(req)
+		out := make([][]byte, len(vals))
+		for i, v := range vals {
+			if v != nil {
+				out[i] = append([]byte{}, v...)
+			}
+		}
+		// the caller reuses its request memory and works destructively on what it got back; every later read
+		// (at least the next step's) must still see the committed content
+		for _, k := range req.Keys {
+			for i := range k {
+				k[i] ^= 0x5a
+			}
+		}
+		req.Keys, req.StateHash = req.Keys[:0], nil
+		if aliasReturnedOK(cs.Cfg, m, root) {
+			for _, v := range vals {
+				for i := range v {
+					v[i] ^= 0x5a
+				}
+			}
+		}
+		return out
 	}
 	iterate := func(root []byte) (out [][2]string) {
 		f.st.IterateRangeByStateHash(root, nil, nil, true, func(k, v []byte) bool {
@@ -425,14 +533,14 @@ func runSequential(t lib.TB, test string, cs caseT) (res outcome) {
 				res.cutShort = true
 				return
 			}
-			lib.Violation(t, prop, test, caseT{cs.Cfg, cs.Ops[:at+1]}, "step %d (%s): the store panicked: %v", at, cs.Ops[at].Op, p)
+			lib.Violation(t, prop, test, caseT{cs.Cfg, cs.Ops[:at+1], cs.AliasReads}, "step %d (%s): the store panicked: %v", at, cs.Ops[at].Op, p)
 		}
 	}()
 	for step, o := range cs.Ops {
 		at = step
 		fail := func(format string, a ...interface{}) {
 			judged = true
-			lib.Violation(t, prop, test, caseT{cs.Cfg, cs.Ops[:step+1]}, "step %d (%s): %s", step, o.Op, fmt.Sprintf(format, a...))
+			lib.Violation(t, prop, test, caseT{cs.Cfg, cs.Ops[:step+1], cs.AliasReads}, "step %d (%s): %s", step, o.Op, fmt.Sprintf(format, a...))
 		}
 		switch o.Op {
 		case "memset", "set":
@@ -471,13 +579,23 @@ func runSequential(t lib.TB, test string, cs caseT) (res outcome) {
 				m.universe[p[0]] = true
 			}
 			v := &verT{content: apply(pv.content, o.KV), height: pv.height + 1} // a block's height is its parent's + 1: siblings share a height
-			set := storeSet([]byte(parent), o.KV, heightBase+v.height)
+			var scratch []byte
+			if o.Alias&aliasPool != 0 {
+				scratch = pool
+				res.pooled++
+			}
+			set := buildSet([]byte(parent), o.KV, heightBase+v.height, scratch)
 			var root []byte
 			var err error
 			if o.Op == "set" {
 				root, err = f.st.Set(set, false)
 			} else {
 				root, err = f.st.MemSet(set, false)
+			}
+			root = append([]byte(nil), root...) // an empty update replies the caller's own parent buffer
+			scribble(set, o.Alias)
+			if o.Alias&^aliasPool != 0 {
+				res.scribbled++
 			}
 			if err != nil || len(root) == 0 {
 				fail("on committed parent %x replied root=%x err=%v", parent, root, err)
@@ -597,7 +715,7 @@ func runSequential(t lib.TB, test string, cs caseT) (res outcome) {
 func TestPropPendingNeverLeaks(t *testing.T) {
 	defer lib.Flush()
 	rapid.Check(t, func(t *rapid.T) {
-		cs := caseT{Cfg: genCfg(t)}
+		cs := caseT{Cfg: genCfg(t), AliasReads: rapid.IntRange(0, 2).Draw(t, "aliasReads") == 0}
 		cs.Ops = genOps(t, cs.Cfg.LevelDB)
 		lib.Eval()
 		res := runSequential(t, "TestPropPendingNeverLeaks", cs)
@@ -605,7 +723,7 @@ func TestPropPendingNeverLeaks(t *testing.T) {
 			on   bool
 			name string
 		}{{cs.Cfg.Prefix || cs.Cfg.Prune, "cfg_prefix"}, {cs.Cfg.Prune, "cfg_prune"}, {cs.Cfg.MemTree, "cfg_memtree"}, {cs.Cfg.LevelDB, "cfg_leveldb"},
-			{res.restarts > 0, "restart"}, {res.forks > 0, "fork_same_parent"}, {res.identical > 0, "identical_pending_twice"}, {res.empty > 0, "empty_update"}, {res.rewrites > 0, "rewrite_unchanged_values"}, {res.nt, "nontrivial"}, {res.skipped > 0, "update_left_out_for_known_finding"}, {res.cutShort, "cut_short_at_known_finding"}} {
+			{res.restarts > 0, "restart"}, {res.forks > 0, "fork_same_parent"}, {res.identical > 0, "identical_pending_twice"}, {res.empty > 0, "empty_update"}, {res.rewrites > 0, "rewrite_unchanged_values"}, {res.nt, "nontrivial"}, {res.scribbled > 0, "alias_request_overwritten_after_call"}, {res.pooled >= 2, "alias_pooled_buffer_reused"}, {cs.AliasReads, "alias_get_buffers_overwritten"}, {res.skipped > 0, "update_left_out_for_known_finding"}, {res.cutShort, "cut_short_at_known_finding"}} {
 			if cl.on {
 				lib.Class(cl.name)
 			}
